@@ -6,7 +6,7 @@
    projection of [n_log] on its id; [cnt nm j r log] counts the records of publication j of context
    nm in the queue of receiver r. *)
 From Coq Require Import List NArith ZArith Bool.
-Require Import QV.C07.Model QV.C07.ProofsLib QV.C07.Proofs QV.C07.ProofsThm.
+Require Import QV.C07.Model QV.C07.ProofsLib QV.C07.Proofs QV.C07.ProofsThm QV.C07.ProofsOrder.
 Import ListNotations.
 Open Scope N_scope.
 
@@ -140,6 +140,23 @@ Theorem C07_channel_fifo : forall s l s' os sd,
 Proof. exact channel_fifo. Qed.
 Print Assumptions C07_channel_fifo.
 
+(* Order, remote receivers, end to end, as ONE statement over the two-context system (two complete
+   SignalManagers, FIFO channels, connects and closes at any position).  Publisher = side sd, subscriber =
+   the other side.  s1 is any reachable state in which publication j1 of the publisher is complete (all
+   local receivers and all peers of its snapshot served: the publishing thread has returned from
+   publish_signal) and publication number j2 has not been handed out yet (the same thread publishes it
+   later).  Then after ANY further history ls2, in the subscriber's delivery log (newest first; the queue of
+   a receiver is its projection, C09 is the queue itself) no record of j2 is older than a record of j1:
+   every receiver there sees the publications of one thread in publication order. *)
+Theorem C07_remote_order : forall a b oa ob ls1 s1 ls2 s2 sd j1 j2,
+  a <> b -> run2 (init2 a b oa ob) ls1 = Some s1 ->
+  done_job j1 (nd s1 sd) -> n_jobctr (nd s1 sd) <= j2 ->
+  run2 s1 ls2 = Some s2 ->
+  forall x e y, n_log (nd s2 (negb sd)) = x ++ e :: y -> rec_from (n_name (nd s2 sd)) j1 e = true ->
+  existsb (rec_from (n_name (nd s2 sd)) j2) y = false.
+Proof. exact remote_order_reachable. Qed.
+Print Assumptions C07_remote_order.
+
 (* non-vacuity: a concrete history with two receivers, a publication interleaved with an unsubscribe *)
 Example C07_example :
   let nm := [110] in let p := [112] in let s := [115] in
@@ -148,3 +165,18 @@ Example C07_example :
       IPubSnapRemote 0; IPubBegin p s 8%Z; IPubDeliver 1 1] = Some (n, os) /\
     cnt nm 0 2 (n_log n) = 1%nat /\ cnt nm 1 2 (n_log n) = 0%nat /\ cnt nm 1 1 (n_log n) = 1%nat.
 Proof. vm_compute. eexists. eexists. repeat split. Qed.
+
+(* non-vacuity of C07_remote_order: two publications of one thread of m, delivered to receiver 1 of n *)
+Example C07_remote_order_example :
+  let n := [110] in let m := [109] in let p := [112] in let sg := [115] in
+  let ls1 := [L2Connect; L2Node true (ISub 1 m p sg 1); L2Deliver true; L2Deliver false; L2Node true (ISubEnd 1);
+              L2Node false (IPubBegin p sg 7%Z); L2Node false (IPubSnapRemote 0); L2Node false (IPubSend 0 n)] in
+  let ls2 := [L2Node false (IPubBegin p sg 8%Z); L2Node false (IPubSnapRemote 1); L2Node false (IPubSend 1 n);
+              L2Deliver false; L2Deliver false] in
+  exists s1 s2, run2 (init2 n m [] [p]) ls1 = Some s1 /\ done_job 0 (nd s1 false) /\ n_jobctr (nd s1 false) <= 1 /\
+    run2 s1 ls2 = Some s2 /\ n_log (nd s2 true) = [(1, (m, p, sg, 8%Z), 1); (1, (m, p, sg, 7%Z), 0)].
+Proof.
+  eexists. eexists. split; [vm_compute; reflexivity|]. split.
+  - split; [|vm_compute; reflexivity]. intros b0 [<-|[]] _. vm_compute. repeat split. discriminate.
+  - split; [vm_compute; discriminate|]. split; vm_compute; reflexivity.
+Qed.
